@@ -1,6 +1,6 @@
 /- Line protocol driver for the numba-cache model. One operation per line; after every operation the
-   driver prints the surviving cache files as `t:name` sorted, and flags:
-     touch t | spawn | load p t | use p t name | check | check k | force
+   driver prints the surviving cache files as `t:kernel:sig` (`i` for the index file) in list (= glob) order, and flags:
+     touch t | spawn | load p t | use p t kernel sig | check | check k | force
    output: `files=<t:name,...> mtimefresh=<0|1> contentfresh=<0|1>` -/
 import Pybes3Verif.Model.Cache
 open Pybes3Verif.Cache
@@ -10,18 +10,18 @@ def parseOp (ws : List String) : Option Op :=
   | ["touch", t] => t.toNat?.map Op.touchTable
   | ["spawn"] => some .spawn
   | ["load", p, t] => do let p ← p.toNat?; let t ← t.toNat?; pure (.load p t)
-  | ["use", p, t, n] => do let p ← p.toNat?; let t ← t.toNat?; let n ← n.toNat?; pure (.firstUse p t n)
+  | ["use", p, t, k, sg] => do let p ← p.toNat?; let t ← t.toNat?; let k ← k.toNat?; let sg ← sg.toNat?; pure (.firstUse p t k sg)
   | ["check"] => some (.importCheck none)
   | ["check", k] => k.toNat?.map (fun k => Op.importCheck (some k))
   | ["force"] => some .forceClear
   | _ => none
 
 def decMtimeFresh (s : St) : Bool := s.files.all (fun f => decide (s.tableMtime f.table ≤ f.mtime))
-def decContentFresh (s : St) : Bool := s.files.all (fun f => decide (f.builtFrom = s.tableVersion f.table))
+def decContentFresh (s : St) : Bool := s.files.all (fun f => !f.isData || decide (f.builtFrom = s.tableVersion f.table))
 
 def render (s : St) : String :=
-  let names := (s.files.map (fun f => (f.table, f.name))).toArray.qsort (fun a b => a.1 < b.1 || (a.1 == b.1 && a.2 < b.2))
-  "files=" ++ ",".intercalate (names.toList.map (fun (t, n) => toString t ++ ":" ++ toString n)) ++
+  "files=" ++ ",".intercalate (s.files.map (fun f => toString f.table ++ ":" ++ toString f.kernel ++ ":" ++
+      (match f.sig with | none => "i" | some g => toString g) ++ "@" ++ toString f.mtime)) ++
     " mtimefresh=" ++ (if decMtimeFresh s then "1" else "0") ++ " contentfresh=" ++ (if decContentFresh s then "1" else "0")
 
 partial def loop (h : IO.FS.Stream) (out : IO.FS.Stream) (s : St) : IO Unit := do
